@@ -1,15 +1,25 @@
 #!/bin/bash
-# tools/try_seeded.sh <PROP> <patch.diff> [tier]  -- apply a seeded change to /repo, run the check, undo.
+# tools/try_seeded.sh <PROP> <patch.diff> [tier]
+# Run a property's check against a seeded change.  The change is applied to a scratch copy of /repo/proxy (VERIF_REPO), so
+# /repo itself is never touched and other work can go on; `--in-repo` as 4th argument applies it to /repo instead
+# (git -C /repo apply; run; git -C /repo checkout -- .), which is how the checks are meant to be used.
 set -u
-P=$1; PATCH=$2; TIER=${3:-quick}
-cd /repo || exit 2
-if [ -n "$(git status --porcelain --untracked-files=no)" ]; then echo "/repo not clean"; exit 2; fi
-git apply "$PATCH" || { echo "patch does not apply"; exit 2; }
+P=$1; PATCH=$(readlink -f "$2"); TIER=${3:-quick}; MODE=${4:-scratch}
 cd /verif
-./check "$P" --tier "$TIER" > /tmp/try_seeded.out 2>&1
-rc=$?
-git -C /repo checkout -- .
-grep -v "^WARNING\|probes:" /tmp/try_seeded.out | cut -c1-400 | head -12
+if [ "$MODE" = "--in-repo" ]; then
+  if [ -n "$(git -C /repo status --porcelain --untracked-files=no)" ]; then echo "/repo not clean"; exit 2; fi
+  git -C /repo apply "$PATCH" || { echo "patch does not apply"; exit 2; }
+  ./check "$P" --tier "$TIER" > /tmp/try_seeded.$$.out 2>&1; rc=$?
+  git -C /repo checkout -- .
+else
+  D=$(mktemp -d /tmp/seedrepo-XXXXXX)
+  cp -r /repo/proxy "$D/proxy"
+  (cd "$D" && patch -s -p1 < "$PATCH") || { echo "patch does not apply"; rm -rf "$D"; exit 2; }
+  VERIF_REPO="$D" ./check "$P" --tier "$TIER" > /tmp/try_seeded.$$.out 2>&1; rc=$?
+  rm -rf "$D"
+fi
+grep -v "^WARNING\|probes:" /tmp/try_seeded.$$.out | cut -c1-400 | head -12
 echo "exit=$rc"
 # replays written for seeded changes are not findings about /repo
-for f in $(grep -o 'replay=[^ ]*' /tmp/try_seeded.out | cut -d= -f2); do rm -f "$f"; done
+for f in $(grep -o 'replay=[^ ]*' /tmp/try_seeded.$$.out | cut -d= -f2); do rm -f "$f"; done
+rm -f /tmp/try_seeded.$$.out
